@@ -736,9 +736,12 @@ def _merge_step(ctx):
 
 def _only_kitti(e: Event) -> bool:
     def assign(a: T):
-        if a.op == "cmp" and a.args[1] is _args_attr("subcommand") and \
+        # the world of the timestamped formats: `== "kitti"` is false,
+        # `!= "kitti"` is true
+        if a.op == "cmp" and a.args[0] in ("Eq", "NotEq") and \
+                a.args[1] is _args_attr("subcommand") and \
                 tm.is_const(a.args[2], "kitti"):
-            return False
+            return a.args[0] == "NotEq"
         return None
     return tm.fold(e.live, assign) is False
 
